@@ -191,6 +191,57 @@ func extractConvFacts() string {
 	if err != nil {
 		return "unrecognised:webhookToCertificates:" + sanitize(err)
 	}
-	return fmt.Sprintf("tolinked=%s tocert=%s whto=%s whfrom=%s", strings.Join(toLinked, ","), strings.Join(toCert, ","),
-		strings.Join(whTo, ","), strings.Join(whFrom, ","))
+	// ---- the two option converters: early "nothing to convert" returns and the webhook loops
+	of, oc := findFunc(f, "", "provisionerOptionsToLinkedca"), findFunc(f, "", "optionsToCertificates")
+	if of == nil || oc == nil {
+		return "unrecognised:option-conversions"
+	}
+	return fmt.Sprintf("tolinked=%s tocert=%s whto=%s whfrom=%s optsto=%s optsfrom=%s", strings.Join(toLinked, ","), strings.Join(toCert, ","),
+		strings.Join(whTo, ","), strings.Join(whFrom, ","), optionsShape(of, "provisionerWebhookToLinkedca"), optionsShape(oc, "webhookToCertificates"))
+}
+
+// optionsShape renders, for an options converter, every top-level `if <cond> { …; return <all nil> }`
+// (a path on which nothing is converted) and every top-level loop over p.Webhooks with the function
+// applied to each webhook: `ret:<cond>;loop:p.Webhooks-><function>`.
+func optionsShape(fd *ast.FuncDecl, conv string) string {
+	var parts []string
+	for _, st := range fd.Body.List {
+		switch x := st.(type) {
+		case *ast.IfStmt:
+			if len(x.Body.List) == 0 {
+				continue
+			}
+			rs, ok := x.Body.List[len(x.Body.List)-1].(*ast.ReturnStmt)
+			if !ok {
+				continue
+			}
+			allNil := len(rs.Results) > 0
+			for _, r := range rs.Results {
+				if id, ok := r.(*ast.Ident); !ok || id.Name != "nil" {
+					allNil = false
+				}
+			}
+			if allNil {
+				parts = append(parts, "ret:"+strings.ReplaceAll(types.ExprString(x.Cond), " ", ""))
+			}
+		case *ast.RangeStmt:
+			called := ""
+			ast.Inspect(x.Body, func(n ast.Node) bool {
+				if ce, ok := n.(*ast.CallExpr); ok {
+					if fn := selString(ce.Fun); fn == conv {
+						called = fn
+					}
+				}
+				return true
+			})
+			if called == "" {
+				called = "?"
+			}
+			parts = append(parts, "loop:"+strings.ReplaceAll(types.ExprString(x.X), " ", "")+"->"+called)
+		}
+	}
+	if len(parts) == 0 {
+		return "-"
+	}
+	return strings.Join(parts, ";")
 }
